@@ -684,18 +684,6 @@ def regenerate(eng=None):
     translation is put back (the build then speaks about the last state that could be translated) and the error
     propagates (= broken obligation)."""
     path = os.path.join(common.LEAN, GEN_REL)
-    try:
-        text = translate(read_source())
-    except Exception:
-        try:
-            good = committed_text()
-            if good and (not os.path.exists(path) or open(path).read() != good):
-                with open(path, "w") as f:
-                    f.write(good)
-        except Exception:
-            pass
-        raise
-    old = open(path).read() if os.path.exists(path) else None
     if eng is not None:
         eng.extra["translated"] = {
             "translator": "harness/props/c11_tr.py -> lean/ALV/Gen/C11Src.lean (shallow, vocabulary ALV/Model/C11Src.lean)",
@@ -710,6 +698,18 @@ def regenerate(eng=None):
             },
             "not_under_translator": NOT_TRANSLATED,
         }
+    try:
+        text = translate(read_source())
+    except Exception:
+        try:
+            good = committed_text()
+            if good and (not os.path.exists(path) or open(path).read() != good):
+                with open(path, "w") as f:
+                    f.write(good)
+        except Exception:
+            pass
+        raise
+    old = open(path).read() if os.path.exists(path) else None
     if old != text:
         os.makedirs(os.path.dirname(path), exist_ok=True)
         with open(path, "w") as f:
